@@ -464,7 +464,7 @@ class App:
         self.close()
 
     def request(self, method, path, data=None, login=None, **kwargs):
-        environ = {k.upper(): v for k, v in kwargs.items()}
+        environ = {(k if "." in k else k.upper()): v for k, v in kwargs.items()}       # ("wsgi.url_scheme" keeps its spelling)
         if login:
             environ["HTTP_AUTHORIZATION"] = "Basic " + base64.b64encode(login.encode("utf-8")).decode()
         environ["REQUEST_METHOD"] = method.upper()
